@@ -17,7 +17,7 @@ RULE = (
     "Subroutine and of the Function built for [B0]; call-graph DOT edge set. Non-trivial = >=2 call sites of "
     "one subroutine, a dead call site, or recursion; distinct by rendered source."
 )
-ASSUMPTIONS = ["R-CFG is the reference", "a callsub that is the last instruction may or may not count as an exit block (statement silent)"]
+ASSUMPTIONS = ["R-CFG is the reference", "a callsub that is the very last instruction counts as a program-terminating (exit) block"]
 NT = {"shared_subroutine", "dead_callsite", "recursion"}
 
 
@@ -40,6 +40,12 @@ def check(case):
         raise Violation("subroutine-set", f"subroutines {sorted(teal.subroutines)} != callsub targets {sorted(g.sub_entry)}")
     if all_lines_of(teal.main.blocks) != sorted(g.main_lines()):
         raise Violation("main-blocks", f"main lines {all_lines_of(teal.main.blocks)} != {sorted(g.main_lines())}")
+    main_exits = sorted(
+        b.entry_instr.line for b in teal.main.blocks
+        if g.by_line[b.instructions[-1].line].op == "retsub" or not g.succ_lines(b.instructions[-1].line)
+    )
+    if _lines(teal.main.exit_blocks) != main_exits:
+        raise Violation("exit-blocks", f"__main__: exit blocks {_lines(teal.main.exit_blocks)}, expected {main_exits}")
     for nm, sub in teal.subroutines.items():
         if sub.name != nm:
             raise Violation("subroutine-name", f"{nm} vs {sub.name}")
@@ -64,8 +70,10 @@ def check(case):
             if g.by_line[b.instructions[-1].line].op == "retsub" or not g.succ_lines(b.instructions[-1].line)
         )
         got_exit = _lines(sub.exit_blocks)
-        if not (set(exp_exit_min) <= set(got_exit) <= set(exp_exit_max)) or len(got_exit) != len(set(got_exit)):
-            raise Violation("exit-blocks", f"{nm}: exit blocks {got_exit}, expected {exp_exit_min} (.. {exp_exit_max})")
+        # exits = retsub blocks and blocks at which the program terminates, incl. a callsub that is the very last
+        # instruction (the program ends there once the callee has returned)
+        if got_exit != exp_exit_max:
+            raise Violation("exit-blocks", f"{nm}: exit blocks {got_exit}, expected {exp_exit_max}")
     # --- call sites
     sites = g.callsites()
     by_target = {}
